@@ -287,10 +287,7 @@ func init() {
 			rule("R09a", "live, oriented rejections", 7, func(r *Run) {
 				core.RejectWhen{Fn: smv + "GetV", Name: "found version > requested version", L: core.FromCall(0, dbp+"getVersion"), R: core.IsObj("param:1"), Rel: token.GTR, Sentinel: "types.ErrVersion"}.Check(r)
 				verPos := func(c *core.Ctx, e ast.Expr) core.Tri {
-					if op, ok := core.CmpAtom(c, e, core.IsObj("param:3"), core.IsConstInt(0)); ok && op == token.GTR {
-						return core.True
-					}
-					return core.Unknown
+					return core.AssumeRel(core.IsObj("param:3"), token.GTR, core.IsConstInt(0), core.True)(c, e)
 				}
 				core.RejectWhen{Fn: smv + "AddMVCC", Spec: &core.FlowSpec{Assume: verPos}, Name: "no previous hash given", L: core.IsObj("param:2"), R: isNilLit, Rel: token.EQL, Sentinel: "types.ErrPrevVersion"}.Check(r)
 				core.RejectWhen{Fn: smv + "AddMVCC", Spec: &core.FlowSpec{Assume: verPos}, Name: "previous version's hash differs", BoolAtom: core.CallAtomSym("bytes.Equal", core.FromCall(0, smv+"GetVersionHash"), core.IsObj("param:2")), RejectVal: false, Sentinel: "types.ErrPrevVersion"}.Check(r)
@@ -396,7 +393,7 @@ func init() {
 					oldKey := core.FromCall(1, tbl+"getModify")
 					newKey := core.FromCall(0, tbl+"getModify")
 					var delOld, addNew bool
-					ast.Inspect(f.Body(), func(x ast.Node) bool {
+					core.InspectBody(f, func(x ast.Node) bool {
 						cl, ok := x.(*ast.CompositeLit)
 						if !ok {
 							return true
@@ -465,7 +462,7 @@ func init() {
 				}
 				c := f.Ctx()
 				overSlice, overMap := false, false
-				ast.Inspect(f.Body(), func(x ast.Node) bool {
+				core.InspectBody(f, func(x ast.Node) bool {
 					rs, ok := x.(*ast.RangeStmt)
 					if !ok {
 						return true
